@@ -174,8 +174,9 @@ type sysRun struct {
 // takes thousands of steps per simulated second; a session at rest takes a few dozen per spinner tick, a few
 // hundred while the "reading" spinner is redrawn): that is a livelock
 // - some component waits for something that will never happen - not a search or a render in progress.
+// (After `become` the process image is gone; what the simulation still runs of it means nothing.)
 func (r *sysRun) checkSpin() {
-	if r.minWindowSteps < 1000 || r.done {
+	if r.minWindowSteps < 1000 || r.done || r.became != "" {
 		return
 	}
 	procs := r.os.Snapshot()
